@@ -2,6 +2,7 @@ package props
 
 import (
 	"fmt"
+	"io"
 	"strings"
 
 	hessian "github.com/vogo/gohessian"
@@ -15,7 +16,7 @@ var c15Entries = []string{"Encoder.WriteTo", "Encoder.WriteObject(first)", "Enco
 
 // runEntry encodes val through one entry point into w and returns (error, panic). For the
 // "second" entry points a small value is written first through a writer that cannot fail.
-func runEntry(entry int, val interface{}, nm map[string]string, w *guard.Writer) (err error, pmsg string) {
+func runEntry(entry int, val interface{}, nm map[string]string, w io.Writer) (err error, pmsg string) {
 	pmsg = core.Catch(func() {
 		switch entry {
 		case 0:
@@ -54,7 +55,7 @@ func sizeKey(sizes []int) string {
 func init() {
 	core.Register(&core.Prop{
 		ID: "C15", Level: "fault_enumeration",
-		Rule:        "For every value of the zoo enumeration (<=k deviating positions), deduplicated per zoo type by the sequence of Write sizes it produces, a counting pass gives the number n of Write calls; then every call index 0..n-1 x fault kinds {error once, error from then on, short count + io.ErrShortWrite, short count + nil error, zero count + nil error} x entry points {Encoder.WriteTo, Encoder.WriteObject as first and as second value of a stream, Serializer.WriteTo, Serializer.Write as second value} is executed on the real encoder with a fault-injecting writer. Oracle: whenever bytes were lost the call returns a non-nil error and does not panic. Non-trivial = a fault was injected and bytes were lost; distinct = (write-size sequence, type, entry, fault kind, index).",
+		Rule:        "For every value of the zoo enumeration (<=k deviating positions), deduplicated per zoo type by the sequence of Write sizes it produces, a counting pass gives the number n of Write calls; then every call index 0..n-1 x fault kinds {error once, error from then on, short count + io.ErrShortWrite, short count + nil error, zero count + nil error} x entry points {Encoder.WriteTo, Encoder.WriteObject as first and as second value of a stream, Serializer.WriteTo, Serializer.Write as second value} is executed on the real encoder with a fault-injecting writer, both a plain io.Writer and one that also implements io.ByteWriter; the same for six large values (1100-1200 element lists, 20000-octet binary, 9000-char string). Oracle: whenever bytes were lost the call returns a non-nil error and does not panic. Non-trivial = a fault was injected and bytes were lost; distinct = (write-size sequence, type, entry, fault kind, index).",
 		Assumptions: []string{"faults are injected at Write-call granularity on the caller-supplied io.Writer, the encoder's only contact with its destination", "a zero-length Write cannot lose bytes and is not counted as a fault"},
 		Units: func(tier string) []core.Unit {
 			var us []core.Unit
@@ -72,64 +73,139 @@ func init() {
 						if p != "" {
 							return
 						}
-						// counting pass
-						w0 := guard.NewWriter()
-						if err, p := runEntry(0, zc.Val, copyNameMap(nm), w0); err != nil || p != "" {
-							return // not encodable at all: C01/C13's concern
-						}
-						key := sizeKey(w0.Sizes)
-						if seen[key] {
-							return
-						}
-						seen[key] = true
-						c.Cover("type:" + t.Name)
-						for entry := range c15Entries {
-							extra := 0
-							if entry == 2 || entry == 4 {
-								extra = 1
-							}
-							for kind := guard.FaultOnce; kind < guard.NumFaultKinds; kind++ {
-								for at := extra; at < w0.Calls+extra; at++ {
-									if !c.Begin() {
-										continue
-									}
-									w := guard.NewWriter()
-									w.FaultAt, w.Kind = at, kind
-									err, pmsg := runEntry(entry, zc.Val, copyNameMap(nm), w)
-									c.Res.States++
-									c.Res.Transitions += int64(w.Calls)
-									if !w.Lost {
-										c.Outcome("no-bytes-lost")
-										continue
-									}
-									c.NontrivialN(1)
-									desc := fmt.Sprintf("%s | %s | fault %s at Write #%d of %d", zc.Desc, c15Entries[entry], guard.FaultName(kind), at, w0.Calls+extra)
-									shape := c15Entries[entry] + " " + guard.FaultName(kind)
-									switch {
-									case pmsg != "":
-										c.Report(&core.Violation{Stage: "encode", Kind: "panic", Shape: shape, Message: msgClass(pmsg), Case: desc, Choices: zc.Choices})
-									case err == nil:
-										c.Report(&core.Violation{Stage: "encode", Kind: "success-reported", Shape: shape, Message: "encode call returned nil although the writer lost bytes at " + writeRole(w0.Sizes, at-extra, w0.Calls),
-											Case: desc, Detail: fmt.Sprintf("write sizes %v", w0.Sizes), Choices: zc.Choices})
-									default:
-										c.Outcome("error-surfaced")
-									}
-									if c.WantSample() && at == w0.Calls/2 && zc.Devs > 0 {
-										c.Sample(desc)
-									}
-								}
-							}
-						}
+						faultAll(c, seen, t.Name, zc.Val, nm, zc.Desc, zc.Choices, zc.Devs > 0)
 					})
+				}})
+			}
+			// large values: block- or buffer-wise writers only show beyond about a thousand elements / 8 KiB
+			for _, lv := range []struct {
+				name string
+				mk   func() interface{}
+			}{
+				{"[]string of 1100 x 8 chars", func() interface{} {
+					l := make([]string, 1100)
+					for i := range l {
+						l[i] = fmt.Sprintf("%08d", i)
+					}
+					return l
+				}},
+				{"[]int64 of 1200 nine-octet values", func() interface{} {
+					l := make([]int64, 1200)
+					for i := range l {
+						l[i] = int64(1)<<40 + int64(i)
+					}
+					return l
+				}},
+				{"[]interface{} of 1100 ints and strings", func() interface{} {
+					l := make([]interface{}, 1100)
+					for i := range l {
+						if i%2 == 0 {
+							l[i] = int32(i * 1000)
+						} else {
+							l[i] = "element"
+						}
+					}
+					return l
+				}},
+				{"[]Inner of 1100", func() interface{} {
+					l := make([]zoo.Inner, 1100)
+					for i := range l {
+						l[i] = zoo.Inner{A: int32(i), S: "in"}
+					}
+					return &zoo.SlInner{L: l, End: 1}
+				}},
+				{"binary of 20000 octets", func() interface{} { return make([]byte, 20000) }},
+				{"string of 9000 chars", func() interface{} { return strings.Repeat("s", 9000) }},
+			} {
+				lv := lv
+				us = append(us, core.Unit{Name: "large:" + lv.name, Cost: 60, Run: func(c *core.Ctx) {
+					v := lv.mk()
+					_, nm, p := Maps(v)
+					if p != "" {
+						return
+					}
+					faultAll(c, map[string]bool{}, "large", v, nm, lv.name, nil, false)
 				}})
 			}
 			return us
 		},
 		RequireCover: func(string) []string {
-			return []string{"type:Scalars", "type:SlInner", "type:MpStrI32", "type:Many", "type:Node", "type:top[]string", "type:topNamedMap"}
+			return []string{"type:large", "type:Scalars", "type:SlInner", "type:MpStrI32", "type:Many", "type:Node", "type:top[]string", "type:topNamedMap"}
 		},
 		MinOutcomes: 1,
 	})
+}
+
+// faultAll injects every fault kind at every Write call of every entry point, for a plain io.Writer and
+// for a destination that also implements io.ByteWriter (a WriteByte call is a one-byte write).
+func faultAll(c *core.Ctx, seen map[string]bool, cover string, val interface{}, nm map[string]string, vdesc string, choices []int, sample bool) {
+	for _, byteWriter := range []bool{false, true} {
+		mkDst := func(w *guard.Writer) io.Writer {
+			if byteWriter {
+				return guard.ByteWriter{Writer: w}
+			}
+			return w
+		}
+		// counting pass
+		w0 := guard.NewWriter()
+		if err, p := runEntry(0, val, copyNameMap(nm), mkDst(w0)); err != nil || p != "" {
+			return // not encodable at all: C01/C13's concern
+		}
+		key := fmt.Sprint(byteWriter) + sizeKey(w0.Sizes)
+		if seen[key] {
+			continue
+		}
+		seen[key] = true
+		c.Cover("type:" + cover)
+		for entry := range c15Entries {
+			extra := 0
+			if entry == 2 || entry == 4 {
+				extra = 1
+			}
+			for kind := guard.FaultOnce; kind < guard.NumFaultKinds; kind++ {
+				for at := extra; at < w0.Calls+extra; at++ {
+					if !c.Begin() {
+						continue
+					}
+					w := guard.NewWriter()
+					w.FaultAt, w.Kind = at, kind
+					err, pmsg := runEntry(entry, val, copyNameMap(nm), mkDst(w))
+					c.Res.States++
+					c.Res.Transitions += int64(w.Calls)
+					if !w.Lost {
+						c.Outcome("no-bytes-lost")
+						continue
+					}
+					c.NontrivialN(1)
+					dst := "io.Writer"
+					if byteWriter {
+						dst = "io.Writer + io.ByteWriter"
+					}
+					desc := fmt.Sprintf("%s | %s into %s | fault %s at Write #%d of %d", vdesc, c15Entries[entry], dst, guard.FaultName(kind), at, w0.Calls+extra)
+					shape := c15Entries[entry] + " " + guard.FaultName(kind)
+					switch {
+					case pmsg != "":
+						c.Report(&core.Violation{Stage: "encode", Kind: "panic", Shape: shape, Message: msgClass(pmsg), Case: desc, Choices: choices})
+					case err == nil:
+						c.Report(&core.Violation{Stage: "encode", Kind: "success-reported", Shape: shape, Message: "encode call returned nil although the writer lost bytes at " + writeRole(w0.Sizes, at-extra, w0.Calls),
+							Case: desc, Detail: fmt.Sprintf("write sizes %v", trimSizes(w0.Sizes)), Choices: choices})
+					default:
+						c.Outcome("error-surfaced")
+					}
+					if c.WantSample() && at == w0.Calls/2 && sample {
+						c.Sample(desc)
+					}
+				}
+			}
+		}
+	}
+}
+
+func trimSizes(s []int) []int {
+	if len(s) > 40 {
+		return s[:40]
+	}
+	return s
 }
 
 // writeRole gives a coarse, value-independent description of which write failed.
